@@ -8,6 +8,8 @@
    ops: A<i> add entry i, U<i> add_unique, R<i> add_replace, L<i> lookup (hash,key) of entry i (sets the thread's iterator), N next_duplicate on
    the iterator, X del the iterator's node, x the same followed - when it succeeds - by a grace period and the release of the node (every later access to it is reported), P<i> replace the iterator's node by entry i, T full traversal (first/next), Z<k> resize to 2^k, z<d> resize to d (any count),
    c<k> the lazy resize request add / del issue when the node count crosses a threshold: cds_lfht_resize_lazy_count(table, size read now, 2^k) (AUTO_RESIZE tables),
+   F = the fork bracket of the parent (cds_lfht_before_fork ; [fork point: who holds the resize mutex is noted] ; cds_lfht_after_fork_parent), G = the same followed by what the
+   fork CHILD does (every library thread ceases to exist; cds_lfht_after_fork_child re-creates the work-queue thread): the run continues as the child,
    C count_nodes, Y cds_lfht_destroy (the program must not use the table afterwards; the end-of-run checks are skipped).  Each operation is one read-side critical
    section (resize and destroy are called outside any). */
 #define _LGPL_SOURCE
@@ -70,6 +72,8 @@ static void body(int t){ struct cds_lfht_iter it; it.node=0; it.next=0; int itke
 	case 'T': { char buf[512]; int l=0; buf[0]=0; struct cds_lfht_iter ti; struct cds_lfht_node *x; vs_call("trav",0); f_lock();
 		cds_lfht_for_each(ht,&ti,x){ if(l<480) l+=sprintf(buf+l,"%d,",((struct ent*)x)->id); } f_unlock(); vs_note("visited %s",buf); vs_ret("trav",0); break; }
 	case 'c': p++; { unsigned long sz=rcu_dereference(ht->size); vs_call("lazycount",1UL<<i); vs_note("lazysize %lu",sz); f_lock(); cds_lfht_resize_lazy_count(ht,sz,1UL<<i); f_unlock(); vs_ret("lazycount",0); } break;
+	case 'F': { vs_call("forkbracket",0); cds_lfht_before_fork(NULL); int o=vs_mutex_owner(&ht->resize_mutex); vs_note("forkwq rsowner %d %s",o,(o>=0&&!vs_is_app(o))?"LIB":"ok"); cds_lfht_after_fork_parent(NULL); vs_ret("forkbracket",0); } break;
+	case 'G': { vs_call("forkchild",0); cds_lfht_before_fork(NULL); int o=vs_mutex_owner(&ht->resize_mutex); vs_note("forkwq rsowner %d %s",o,(o>=0&&!vs_is_app(o))?"LIB":"ok"); vs_note("forkchild"); vs_freeze_lib_threads(); vs_end_with_apps=1; /* the child's re-created worker never sleeps again (its futex word was left at -1 by the parent's worker: DESIGN.md 9.4) */ cds_lfht_after_fork_child(NULL); vs_ret("forkchild",0); } break;
 	case 'Z': p++; vs_call("resize",1UL<<i); cds_lfht_resize(ht,1UL<<i); vs_ret("resize",0); break;
 	case 'z': p++; vs_call("resize",(unsigned long)i); cds_lfht_resize(ht,(unsigned long)i); vs_ret("resize",0); break;
 	case 'Y': { vs_call("destroy",0); int r=cds_lfht_destroy(ht,NULL); destroyed=1; vs_ret("destroy",(unsigned long)r); break; }
